@@ -1,7 +1,8 @@
 /*
- * C23 stress (thorough tier): N producer threads / M consumer threads on the REAL system resource manager
+ * C23 stress: N producer threads / M consumer threads on the REAL system resource manager
  * (EbSystemResourceManager.c + EbThreads.c + EbMalloc.c + EbLog.c of /repo), exercising the real
- * semaphore wake-up path under true concurrency.
+ * semaphore wake-up path under true concurrency.  Also run with env SVT_VERIF_PERTURB=<seed>:<pct>:<max_us> (EbThreads.c hook,
+ * -DSVT_AV1_VERIF): sleeps / yields in front of every mutex and semaphore operation widen every race window.
  *
  *   srm_stress <seed> <nObj> <nProd> <nCons> <perProducer> <serialisePosts 0|1>
  *
@@ -109,9 +110,17 @@ static void *consumer(void *arg) {
     return NULL;
 }
 
+static long last_progress = -1;
 static void on_alarm(int sig) {
     char msg[160];
     (void)sig;
+    /* watchdog on PROGRESS, not on total run time (the run may be slowed by SVT_VERIF_PERTURB and by machine load) */
+    long now = consumed + shutdown_returns;
+    if (now != last_progress) {
+        last_progress = now;
+        alarm(20);
+        return;
+    }
     int n = snprintf(msg, sizeof msg, "HANG consumed=%ld of %ld shutdown_returns=%ld of %d\n", consumed, (long)n_prod * per_prod, shutdown_returns, n_cons);
     if (write(1, msg, n)) {}
     _exit(1);
